@@ -188,7 +188,11 @@ FLAVOURS = {
     "fld": ("", [], tid("Fld"), "S", None),
     "g": ("<T>", ["T"], tapp(tid("G"), tid("T")), "S<u32>", tid("u32")),
     "t": ("<T>", ["T"], tid("T"), "S<Fld>", tid("Fld")),
+    # a second generic wrapper (its inherent `into_iter` takes `&self`); State-based derives only
+    "h": ("<T>", ["T"], tapp(tid("H"), tid("T")), "S<u32>", tid("u32")),
 }
+AS_FLAVOURS = ("fld", "g", "t")
+CTOR = {"fld": "G", "g": "G", "t": "G", "h": "H"}
 
 # candidate listed types per flavour
 AS_TYPES = {
@@ -723,7 +727,7 @@ def gen_state_cases(rng, tier):
 def gen_as_cases(rng, tier):
     cases = []
     for d in ("AsRef", "AsMut"):
-        for flav in FLAVOURS:
+        for flav in AS_FLAVOURS:
             tys = AS_TYPES[flav]
             lists = [[t] for t in tys] + [list(p) for p in itertools.permutations(tys, 2)]
             if flav != "t":
@@ -803,7 +807,7 @@ def gen_exotic_cases(rng, tier):
 
 # ------------------------------------------------------------------ the generated crate
 
-PRELUDE = r"""
+PRELUDE_HEAD = r"""
 #![allow(dead_code, unused_variables, unused_mut, unused_imports, unused_parens, non_camel_case_types)]
 #![allow(clippy::all)]
 use std::ops::{Deref, DerefMut, Index, IndexMut};
@@ -811,18 +815,47 @@ use std::ops::{Deref, DerefMut, Index, IndexMut};
 #[derive(Clone, Debug, PartialEq)]
 pub struct Inner { pub tag: u32 }
 
-// the field type: every delegated trait has its OWN, recognisable implementation
-#[derive(Clone, Debug)]
-pub struct G<T> { pub v: Vec<T>, pub inner: Inner, pub tag: u32, pub shadow: Option<Box<G<T>>> }
 pub type Fld = G<u32>;
 pub type FldAlias = Fld;
 pub type GAlias<T> = G<T>;
 
+pub fn addr<T: ?Sized>(r: &T) -> usize { r as *const T as *const u8 as usize }
+pub fn pos<X: PartialEq>(cand: &[X], got: &X) -> String {
+    let v: Vec<String> = cand.iter().enumerate().filter(|(_, c)| *c == got).map(|(i, _)| i.to_string()).collect();
+    format!("[{}]", v.join(","))
+}
+pub fn changed(before: &[String], after: &[String]) -> String {
+    let v: Vec<String> = (0..before.len()).filter(|&i| before[i] != after[i]).map(|i| i.to_string()).collect();
+    format!("[{}]", v.join(","))
+}
+"""
+
+# One run-time field type.  Every delegated trait has its OWN, recognisable implementation, and next to each
+# trait method there is an INHERENT method of the same name that answers from somewhere else (the `alt` field,
+# a sub-slice, the shadow node): a derive that reaches the field through method syntax (`self.f.as_ref()`,
+# `(&self.f).into_iter()`, ...) instead of the qualified trait call gets the inherent answer and is observed.
+FIELD_TYPE = r"""
+#[derive(Clone, Debug)]
+pub struct G<T> { pub v: Vec<T>, pub inner: Inner, pub alt: Inner, pub tag: u32, pub shadow: Option<Box<G<T>>> }
+
 impl G<u32> {
     pub fn new(j: u32) -> Self {
-        G { v: vec![10 * j + 1, 10 * j + 2, 10 * j + 3], inner: Inner { tag: 100 + j }, tag: j,
-            shadow: Some(Box::new(G { v: vec![900 + j], inner: Inner { tag: 800 + j }, tag: 700 + j, shadow: None })) }
+        G { v: vec![10 * j + 1, 10 * j + 2, 10 * j + 3], inner: Inner { tag: 100 + j }, alt: Inner { tag: 300 + j }, tag: j,
+            shadow: Some(Box::new(G { v: vec![500 + 10 * j + 1, 500 + 10 * j + 2, 500 + 10 * j + 3], inner: Inner { tag: 800 + j },
+                                      alt: Inner { tag: 600 + j }, tag: 700 + j, shadow: None })) }
     }
+}
+impl<T> G<T> {
+    fn other(&self) -> &G<T> { match &self.shadow { Some(b) => &**b, None => self } }
+    fn other_mut(&mut self) -> &mut G<T> { if self.shadow.is_some() { &mut **self.shadow.as_mut().unwrap() } else { self } }
+    // inherent namesakes of the trait methods (different answers)
+    pub fn as_ref(&self) -> &[T] { &self.v[1..] }
+    pub fn as_mut(&mut self) -> &mut [T] { &mut self.v[1..] }
+    pub fn deref(&self) -> &Inner { &self.alt }
+    pub fn deref_mut(&mut self) -> &mut Inner { &mut self.alt }
+    pub fn index<I>(&self, i: I) -> &<Self as Index<I>>::Output where Self: Index<I> { <Self as Index<I>>::index(self.other(), i) }
+    pub fn index_mut<I>(&mut self, i: I) -> &mut <Self as Index<I>>::Output where Self: IndexMut<I> { <Self as IndexMut<I>>::index_mut(self.other_mut(), i) }
+    INHERENT_INTO_ITER
 }
 impl<T> Deref for G<T> { type Target = Inner; fn deref(&self) -> &Inner { &self.inner } }
 impl<T> DerefMut for G<T> { fn deref_mut(&mut self) -> &mut Inner { &mut self.inner } }
@@ -846,19 +879,17 @@ impl<T> AsMut<Inner> for G<T> { fn as_mut(&mut self) -> &mut Inner { &mut self.i
 impl<T> AsRef<[T]> for G<T> { fn as_ref(&self) -> &[T] { &self.v[..] } }
 impl<T> AsMut<[T]> for G<T> { fn as_mut(&mut self) -> &mut [T] { &mut self.v[..] } }
 // the reflexive impl does NOT return `self`: a forwarded call is distinguishable from the identity
-impl<T> AsRef<G<T>> for G<T> { fn as_ref(&self) -> &G<T> { match &self.shadow { Some(b) => &**b, None => self } } }
-impl<T> AsMut<G<T>> for G<T> { fn as_mut(&mut self) -> &mut G<T> { if self.shadow.is_some() { &mut **self.shadow.as_mut().unwrap() } else { self } } }
-
-pub fn addr<T: ?Sized>(r: &T) -> usize { r as *const T as *const u8 as usize }
-pub fn pos<X: PartialEq>(cand: &[X], got: &X) -> String {
-    let v: Vec<String> = cand.iter().enumerate().filter(|(_, c)| *c == got).map(|(i, _)| i.to_string()).collect();
-    format!("[{}]", v.join(","))
-}
-pub fn changed(before: &[String], after: &[String]) -> String {
-    let v: Vec<String> = (0..before.len()).filter(|&i| before[i] != after[i]).map(|i| i.to_string()).collect();
-    format!("[{}]", v.join(","))
-}
+impl<T> AsRef<G<T>> for G<T> { fn as_ref(&self) -> &G<T> { self.other() } }
+impl<T> AsMut<G<T>> for G<T> { fn as_mut(&mut self) -> &mut G<T> { self.other_mut() } }
 """
+
+# G: inherent `into_iter(self)` (hijacks `self.f.into_iter()`); H: inherent `into_iter(&self)` (hijacks
+# `(&self.f).into_iter()` / `self.f.into_iter()` written for the shared form)
+INHERENT_BY_VALUE = "pub fn into_iter(self) -> std::iter::Rev<std::vec::IntoIter<T>> { let o = match self.shadow { Some(b) => *b, None => self }; o.v.into_iter().rev() }"
+INHERENT_BY_REF = "pub fn into_iter(&self) -> std::iter::Rev<std::slice::Iter<'_, T>> { self.other().v.iter().rev() }"
+PRELUDE = (PRELUDE_HEAD + FIELD_TYPE.replace("INHERENT_INTO_ITER", INHERENT_BY_VALUE)
+           + re.sub(r"\bG\b", "H", FIELD_TYPE.replace("INHERENT_INTO_ITER", INHERENT_BY_REF)))
+
 
 
 def emit_case(case, real):
@@ -872,9 +903,9 @@ def emit_case(case, real):
     derives = {"DerefMut": "derive_more::Deref, derive_more::DerefMut",
                "IndexMut": "derive_more::Index, derive_more::IndexMut"}.get(d, "derive_more::" + d)
     if case["named"]:
-        ctor = "S { " + ", ".join("%s: G::new(%d)" % (NAMES[j], j) for j in range(n)) + " }"
+        ctor = "S { " + ", ".join("%s: %s::new(%d)" % (NAMES[j], CTOR[flav], j) for j in range(n)) + " }"
     else:
-        ctor = "S(" + ", ".join("G::new(%d)" % j for j in range(n)) + ")"
+        ctor = "S(" + ", ".join("%s::new(%d)" % (CTOR[flav], j) for j in range(n)) + ")"
     L = ["use super::*;", "#[derive(%s)]" % derives, item_src(case, pub=True, both=True),
          "pub fn mk() -> %s { %s }" % (sinst, ctor),
          "pub fn run(id: &str, out: &mut Vec<String>) {"]
@@ -922,26 +953,26 @@ def emit_case(case, real):
             ops.append(("index_mut", bk))
         elif d == "IntoIterator":
             if rk == "RNo":
-                c = "vec![" + ", ".join("{ let s = mk(); %s.into_iter().collect::<Vec<u32>>() }" % a for a in acc) + "]"
-                L += ["  { let cand: Vec<Vec<u32>> = %s; let got: Vec<u32> = mk().into_iter().collect();" % c]
+                c = "vec![" + ", ".join("{ let s = mk(); <%s as IntoIterator>::into_iter(%s).collect::<Vec<u32>>() }" % (ftyi, a) for a in acc) + "]"
+                L += ["  { let cand: Vec<Vec<u32>> = %s; let got: Vec<u32> = <%s as IntoIterator>::into_iter(mk()).collect();" % (c, sinst)]
                 line("iter_owned", ("pos", "pos(&cand, &got)"), ("vals", 'format!("{:?}", got)'))
                 L += ["  }"]
                 ops.append(("iter_owned", bk))
             elif rk == "RRef":
-                c = "vec![" + ", ".join("(&%s).into_iter().map(|x| addr(x)).collect::<Vec<usize>>()" % a for a in acc) + "]"
+                c = "vec![" + ", ".join("<&%s as IntoIterator>::into_iter(&%s).map(|x| addr(x)).collect::<Vec<usize>>()" % (ftyi, a) for a in acc) + "]"
                 L += ["  { let s = mk(); let cand: Vec<Vec<usize>> = %s;" % c,
-                      "    let got: Vec<usize> = (&s).into_iter().map(|x| addr(x)).collect();",
-                      "    let vals: Vec<u32> = (&s).into_iter().map(|x| *x).collect();"]
+                      "    let got: Vec<usize> = <&SINST as IntoIterator>::into_iter(&s).map(|x| addr(x)).collect();",
+                      "    let vals: Vec<u32> = <&SINST as IntoIterator>::into_iter(&s).map(|x| *x).collect();"]
                 line("iter_ref", ("pos", "pos(&cand, &got)"), ("vals", 'format!("{:?}", vals)'))
                 L += ["  }"]
                 ops.append(("iter_ref", bk))
             else:
-                c = "vec![" + ", ".join("(&mut %s).into_iter().map(|x| addr(x)).collect::<Vec<usize>>()" % a for a in acc) + "]"
+                c = "vec![" + ", ".join("<&mut %s as IntoIterator>::into_iter(&mut %s).map(|x| addr(x)).collect::<Vec<usize>>()" % (ftyi, a) for a in acc) + "]"
                 L += ["  { let mut s = mk(); let cand: Vec<Vec<usize>> = %s;" % c,
-                      "    let got: Vec<usize> = (&mut s).into_iter().map(|x| addr(x)).collect();",
-                      "    let vals: Vec<u32> = (&mut s).into_iter().map(|x| *x).collect();",
+                      "    let got: Vec<usize> = <&mut SINST as IntoIterator>::into_iter(&mut s).map(|x| addr(x)).collect();",
+                      "    let vals: Vec<u32> = <&mut SINST as IntoIterator>::into_iter(&mut s).map(|x| *x).collect();",
                       "    let before = %s;" % fps,
-                      "    for (k, x) in (&mut s).into_iter().enumerate() { *x = 1000 + k as u32; }",
+                      "    for (k, x) in <&mut SINST as IntoIterator>::into_iter(&mut s).enumerate() { *x = 1000 + k as u32; }",
                       "    let after = %s;" % fps]
                 line("iter_mut", ("pos", "pos(&cand, &got)"), ("vals", 'format!("{:?}", vals)'),
                      ("changed", "changed(&before, &after)"))
@@ -975,7 +1006,7 @@ def emit_case(case, real):
                 L += ["  }"]
                 ops.append((m, k, cls, bk))
     L.append("}")
-    return "\n".join(L) + "\n", ops
+    return ("\n".join(L) + "\n").replace("SINST", sinst), ops
 
 
 def coherent(case, real):
@@ -1326,7 +1357,15 @@ def run_rt(chk, runtime):
             if not is_as:
                 i = exp[1]
                 want = "[%d]" % i
-                if kv["pos"] != want:
+                fwd_expected = c["derive"] in ("Index", "IndexMut", "IntoIterator") or bool(exp[2])
+                if kv["pos"] == "[]" and fwd_expected:
+                    # not what ANY field's own trait impl returns (called explicitly as <FieldTy as Trait>::method)
+                    chk.violation("rt-forward-not-trait-impl", dict(rep, op=op, expected_field=i),
+                                  "derive(%s) on `%s`: %s does not return what the field type's own %s impl returns when called "
+                                  "explicitly on field %d (nor on any other field)%s" %
+                                  (c["derive"], src, op, c["derive"], i,
+                                   ": elements %s" % kv["vals"] if "vals" in kv else (": value %s" % kv["val"] if "val" in kv else "")))
+                elif kv["pos"] != want:
                     chk.violation("rt-wrong-address", dict(rep, op=op, expected_field=i),
                                   "derive(%s) on `%s`: %s returns the storage of field(s) %s, the designated field is %d" %
                                   (c["derive"], src, op, kv["pos"], i))
@@ -1367,6 +1406,12 @@ def run_rt(chk, runtime):
                                   "(own-impl-of %s)%s" %
                                   (c["derive"], src, k, rust_ty(tt), kv["ident"], c["derive"], kv["fwd"],
                                    "; a write through it left field %d's own storage untouched (own=%s)" % (i, kv["own"]) if "own" in kv else ""))
+                elif not good and beh == "fwd" and kv["fwd"] == "[]":
+                    chk.violation("rt-forward-not-trait-impl", dict(rep, op=op, impl=k, expected=(i, beh)),
+                                  "derive(%s) on `%s`: impl #%d (target %s) does not return what `<FieldTy as %s<%s>>::%s(..)` returns when "
+                                  "called explicitly on field %d (nor on any other field; identity-of %s)" %
+                                  (c["derive"], src, k, tt if tt == "__AsT" else rust_ty(tt), c["derive"],
+                                   {"fld": "Self", "inner": "Inner", "slice": "[T]"}[cls], op, i, kv["ident"]))
                 elif not good:
                     chk.violation("rt-as-wrong-reference", dict(rep, op=op, impl=k, expected=(i, beh)),
                                   "derive(%s) on `%s`: impl #%d (target %s) returns identity-of %s / own-impl-of %s; expected %s of field %d" %
